@@ -26,6 +26,7 @@ fn main() {
         std::process::exit(1);
     });
     let (mut checked, mut bad) = (0, 0);
+    let mut xbad = 0;
     let mut report = |what: String, out: &str| {
         checked += 1;
         let x = extra(out);
@@ -58,6 +59,26 @@ fn main() {
         let out = std::fs::read_to_string(&f).unwrap_or_default();
         let _ = std::fs::remove_file(&f);
         report(what, &out);
+    }
+    // ---- children spawned while an exchange is set up but not finished: the Communicator holds the parent's pipe ends
+    {
+        let big = vec![b'x'; 200_000];
+        let mut p1 = Popen::create(&["cat"], PopenConfig { stdin: Redirection::Pipe, stdout: Redirection::Pipe, stderr: Redirection::Pipe, ..Default::default() }).unwrap();
+        let mut c1 = p1.communicate_start(Some(big.clone()));
+        let mut c2 = Exec::cmd("cat").stdin(big.clone()).stdout(Redirection::Pipe).stderr(Redirection::Pipe).communicate().unwrap();
+        let mut c3 = (Exec::cmd("cat") | Exec::cmd("cat")).stdin(big.clone()).communicate().unwrap();
+        let f = audit_file(30);
+        let script = format!("( {} ) > {}", AUDIT, f.display());
+        let mut p = Popen::create(&["sh", "-c", &script], PopenConfig::default()).unwrap();
+        p.wait().unwrap();
+        let out = std::fs::read_to_string(&f).unwrap_or_default();
+        let _ = std::fs::remove_file(&f);
+        report("single command spawned while three exchanges (communicate_start, Exec::communicate, Pipeline::communicate) are set up".into(), &out);
+        // the exchanges themselves must still run to completion
+        for (n, c) in [&mut c1, &mut c2, &mut c3].iter_mut().enumerate() {
+            match c.read() { Ok((o, _)) => if o.map(|o| o.len()) != Some(big.len()) { println!("FAIL: exchange {} did not return the 200000 bytes{}", n, label); xbad += 1; }, Err(e) => { println!("FAIL: exchange {} failed: {:?}{}", n, e.kind(), label); xbad += 1; } }
+        }
+        let _ = p1.wait();
     }
     // ---- pipelines: every stage audits itself into its own file and passes its input on
     for n in 2..=4usize {
@@ -107,6 +128,6 @@ fn main() {
         if !o.status.success() { sub_bad = true; }
     }
     println!("{} descriptor tables checked{}, {} with a leak", checked, label, bad);
-    if bad > 0 || sub_bad { std::process::exit(1); }
+    if bad > 0 || xbad > 0 || sub_bad { std::process::exit(1); }
     if !closed_mode { println!("ok"); }
 }
